@@ -50,20 +50,26 @@ def start (ps : List (Proc Req Resp Disco Res)) : State Req Resp Disco Res :=
   let sts := ps.map (settle (none : Option Disco))
   ⟨none, sts, sts.zipIdx.flatMap fun x => x.1.2.map (x.2, ·)⟩
 
-/-- answer the pending sender call of process `i` -/
-def deliver (answer : Req → Resp) (d₀ : Disco) (s : State Req Resp Disco Res) (i : Nat) : State Req Resp Disco Res :=
+/-- answer the pending sender call of process `i`.  `forgets q r`: the answer `r` to `q` is one on
+    which `V3MPM.decode` drops the shared discovery data (any `SnmpError` raised while the message
+    is processed: USM reports, error-status responses) — the next `needDisco` of any operation
+    probes again. -/
+def deliver (answer : Req → Resp) (forgets : Req → Resp → Bool) (d₀ : Disco) (s : State Req Resp Disco Res) (i : Nat) :
+    State Req Resp Disco Res :=
   match s.procs[i]? with
   | some (.waiting q k, h) =>
-    let r := settle s.shared (k (answer q))
-    { s with procs := s.procs.set i (r.1, h ++ r.2), log := s.log ++ r.2.map (i, ·) }
+    let shared' := if forgets q (answer q) then none else s.shared
+    let r := settle shared' (k (answer q))
+    { shared := shared', procs := s.procs.set i (r.1, h ++ r.2), log := s.log ++ r.2.map (i, ·) }
   | some (.probing k, h) =>
     -- `self.disco = await send_discovery_message(...)`, then the same atomic block goes on
     let r := settle (some d₀) (k d₀)
     { shared := some d₀, procs := s.procs.set i (r.1, h ++ r.2), log := s.log ++ r.2.map (i, ·) }
   | _ => s
 
-def runSched (answer : Req → Resp) (d₀ : Disco) (s : State Req Resp Disco Res) (sched : List Nat) : State Req Resp Disco Res :=
-  sched.foldl (deliver answer d₀) s
+def runSched (answer : Req → Resp) (forgets : Req → Resp → Bool) (d₀ : Disco) (s : State Req Resp Disco Res)
+    (sched : List Nat) : State Req Resp Disco Res :=
+  sched.foldl (deliver answer forgets d₀) s
 
 /-- the result of running the operation alone -/
 def denote (answer : Req → Resp) (d₀ : Disco) : Proc Req Resp Disco Res → Res
